@@ -81,6 +81,7 @@ _RR_INV2 = [
     "not failed()",
 ]
 contract(M, "round_robin",
+    summary=dict(result="RRS(stream(iterables), buffer_size)", fails_only_if="FAILS(stream(iterables))"),
     props=["C02", "C07", "C14", "C19"],
     params={"iterables": "iter", "buffer_size": "int"},
     generator=True,
@@ -142,6 +143,7 @@ _SBA["summary"] = None
 contract(M, "shuffle_buffer_async", **_SBA)
 
 contract(M, "round_robin_async",
+    summary=dict(result="RRS(stream(iterables), buffer_size)", fails_only_if="FAILS(stream(iterables))"),
     props=["C02", "C07", "C14", "C19"],
     params={"iterables": "iter", "buffer_size": "int"},
     generator=True,
